@@ -1,10 +1,13 @@
 """C01 - caching is transparent."""
-from . import classlaws, fingerprint, cached_l7, dataset_tower
+from . import classlaws, fingerprint, cached_l7, dataset_tower, memcache_c02
 
 
 def build(repo, tier, seed):
     vcs, und, sanity = fingerprint.build(repo)
     v2, syn2, und2 = cached_l7.build(repo, faulty=False, label="L7")
+    v3, u3 = memcache_c02.build(repo)
+    vcs = vcs + v3
+    und = und + u3
     t_syn, t_und = dataset_tower.tower_obligations(repo)
     d_syn, d_und = dataset_tower.derive_obligations(repo)
     b = classlaws.bundle(repo, tier, seed, ("L2", "L3"), classes=classlaws.READY + ["Dataset"], extra_vcs=vcs + v2, extra_sanity=sanity)
